@@ -8,7 +8,7 @@ for l in open('/verif/properties.jsonl'):
         break
 wt = "/tmp/seed-%s" % pid
 out = "/tmp/seed-%s-out" % pid
-print(f"""You are a software engineer helping to evaluate a verification tool by mutation seeding. You work ONLY inside a scratch git worktree of a Go library (biscuit-go, Go implementation of Biscuit authorization tokens) at {wt} and an output directory {out}. Do NOT read, list or use anything under /verif or /repo (the worktree is a full copy of the library; everything you need is in it). Do not commit anything.
+print(f"""You are a software engineer helping to evaluate a verification tool by mutation seeding. You work ONLY inside a scratch git worktree of a Go library (biscuit-go, Go implementation of Biscuit authorization tokens) at {wt} and an output directory {out}. Do NOT read, list or use anything under /verif or /repo (the worktree is a full copy of the library; everything you need is in it). Do not commit anything, and never use `git stash` (the stash is shared between worktrees of the same repository and other people are working in sibling worktrees): to set a change aside use `git diff > file` and `git apply -R file` / `git checkout -- .`.
 
 Environment: no network. Use these env vars for every go command: GOFLAGS=-mod=mod GOPROXY=off GOSUMDB=off GOTOOLCHAIN=local (go 1.23). The library's test suite is run with:  cd {wt} && go test -vet=off -count=1 ./...   (one datalog test, TestFamily, and samples test019 are known to fail sporadically with 'world runtime limit: timeout' because of a 2 ms default time limit; if you see exactly that, re-run to tell a flake from a real failure).
 
